@@ -149,3 +149,34 @@ Theorem C14_kc_bar_scale : forall k m c bars, 0 <= c -> kc_bar_real k m (map (bs
 Proof. exact kc_bar_scale. Qed.
 Theorem C14_kc_bar_shift : forall k m d bars, kc_bar_real k m (map (bshift d) bars) = map (map (Rplus d)) (kc_bar_real k m bars).
 Proof. exact kc_bar_shift. Qed.
+
+(* ---- on binary64: why power-of-two factors are covariant bit for bit. Round-to-nearest-even commutes with multiplication by 2^k
+   whenever the argument and the scaled argument are zero or normal (C14_RN_pow2); hence correctly rounded + and - of operands scaled by
+   2^k return the scaled result (C14_add_pow2_binary64, C14_sub_pow2_binary64), a ratio of two scaled quantities does not move at all
+   (C14_ratio_pow2_binary64), and RateOfChange — ((x - r) / r) * 100 on the window reference for every number type — returns exactly the
+   same value on the scaled stream (C14_roc_pow2_binary64) ---- *)
+From Coq Require Import Reals Floats.
+From Flocq Require Import Core.
+From TA Require Import FloatInst Proofs.FloatErr Proofs.GRoc Proofs.FloatScale.
+Theorem C14_RN_pow2 : forall x k,
+  (x = 0 \/ (nmin <= Rabs x /\ nmin <= Rabs (x * bpow radix2 k)))%R -> (RNd (x * bpow radix2 k) = RNd x * bpow radix2 k)%R.
+Proof. exact RNd_mult_bpow0. Qed.
+(* RNd is what binary64 addition computes: *)
+Theorem C14_add_is_RNd : forall a b, finF a -> finF b -> (Rabs (FR a + FR b) <= BIG)%R -> FR (a + b)%float = RNd (FR a + FR b).
+Proof. exact fadd_is_RNd. Qed.
+Theorem C14_add_pow2_binary64 : forall k a b a' b', scaled k a a' -> scaled k b b' ->
+  (Rabs (FR a + FR b) <= BIG)%R -> (Rabs ((FR a + FR b) * bpow radix2 k) <= BIG)%R -> zero_or_normal k (FR a + FR b) ->
+  scaled k (a + b)%float (a' + b')%float.
+Proof. exact fadd_scale. Qed.
+Theorem C14_sub_pow2_binary64 : forall k a b a' b', scaled k a a' -> scaled k b b' ->
+  (Rabs (FR a - FR b) <= BIG)%R -> (Rabs ((FR a - FR b) * bpow radix2 k) <= BIG)%R -> zero_or_normal k (FR a - FR b) ->
+  scaled k (a - b)%float (a' - b')%float.
+Proof. exact fsub_scale. Qed.
+Theorem C14_ratio_pow2_binary64 : forall k a b a' b', scaled k a a' -> scaled k b b' -> FR b <> 0%R -> (Rabs (FR a / FR b) <= BIG)%R ->
+  finF (a / b)%float /\ finF (a' / b')%float /\ FR (a' / b')%float = FR (a / b)%float.
+Proof. exact fdiv_scale_ratio. Qed.
+Theorem C14_roc_pow2_binary64 : forall k x r x' r', scaled k x x' -> scaled k r r' -> FR r <> 0%R ->
+  (Rabs (FR x - FR r) <= BIG)%R -> (Rabs ((FR x - FR r) * bpow radix2 k) <= BIG)%R -> zero_or_normal k (FR x - FR r) ->
+  (Rabs (FR (x - r)%float / FR r) <= BIG / 256)%R ->
+  finF (groc_val FOps r x) /\ finF (groc_val FOps r' x') /\ FR (groc_val FOps r' x') = FR (groc_val FOps r x).
+Proof. exact roc_pow2_invariant. Qed.
